@@ -270,12 +270,47 @@ enum:
 		if rapid.Bool().Draw(rt, "addmatch") {
 			c.Keys = append(c.Keys, strings.NewReplacer("*", "zz", "?", "q").Replace(c.Pattern))
 		}
+		for i, k := 0, rapid.IntRange(0, 3).Draw(rt, "nderived"); i < k; i++ {
+			// keys derived from the pattern, with literal wildcard characters where the pattern has its wildcards
+			var sb strings.Builder
+			for _, r := range c.Pattern {
+				switch r {
+				case '*':
+					sb.WriteString(rapid.SampledFrom([]string{"", "*", "*b", "a*", "**", "?", "zz"}).Draw(rt, "starfill"))
+				case '?':
+					sb.WriteString(rapid.SampledFrom([]string{"q", "*", "?", "."}).Draw(rt, "onefill"))
+				default:
+					sb.WriteRune(r)
+				}
+			}
+			c.Keys = append(c.Keys, sb.String())
+		}
 		h.Col.Case(meta(c.Pattern) || wild(c.Pattern), []byte(fmt.Sprint(c.Keys, c.Pattern)), "server-keys-vs-scan")
 		if h.Col.WantSample() {
 			h.Col.Sample(c)
 		}
 		h.Fail(rt, "c17.server", c, evalC17Server(c))
 	})
+
+	// server level, complete: every pattern up to length 3 over {a,b,*,?} against a store that holds every key
+	// up to length 2 over {a,b,*,?} (the keys contain literal wildcard characters)
+	{
+		keys := allStrings([]byte{'a', 'b', '*', '?'}, 2)[1:]
+		pats := allStrings([]byte{'a', 'b', '*', '?'}, 3)
+		complete := true
+		for i, pat := range pats {
+			if i%h.NShards != h.Shard {
+				continue
+			}
+			c := c17Server{Pattern: pat, Keys: keys}
+			h.Col.Case(wild(pat), []byte("srvex\x00"+pat), "server-exhaustive")
+			if !h.Report("c17.server", c, evalC17Server(c)) {
+				complete = false
+				break
+			}
+		}
+		h.Col.Exhaustive("server level: patterns up to length 3 over {a,b,*,?} x a store holding all 20 keys up to length 2 over the same alphabet", complete)
+	}
 
 	// large key spaces (an implementation may take another path there)
 	h.Rapid("server-large", h.N(40, 1500), func(rt *rapid.T) {
